@@ -11,7 +11,7 @@ import time
 import z3
 
 from . import logic as L
-from .contracts import REGISTRY, SCHEMAS, LEMMAS
+from .contracts import REGISTRY, SCHEMAS, LEMMAS, EXTERNALS, CALL_OVERRIDES
 from .source import Repo, strip_docstring
 
 INT, REAL, BOOL = z3.IntSort(), z3.RealSort(), z3.BoolSort()
@@ -47,6 +47,21 @@ class SList:
 
     def same(self, other):
         return isinstance(other, SList) and self.arr.eq(other.arr) and _zeq(self.length, other.length)
+
+
+class SMat:
+    """2-D float array: rows are arrays; nrows x ncols"""
+    __slots__ = ("arr", "nrows", "ncols")
+
+    def __init__(self, arr, nrows, ncols):
+        self.arr, self.nrows, self.ncols = arr, nrows, ncols
+
+    def __getitem__(self, i):
+        return SList(z3.Select(self.arr, L.lift(i, INT)), self.ncols, "real")
+
+    @property
+    def length(self):
+        return self.nrows
 
 
 class ObjRef:
@@ -194,6 +209,8 @@ def merge_values(c, a, b):
         if a.elem != b.elem:
             raise Unsupported("merge of lists with different element sorts")
         return SList(z3.If(c, a.arr, b.arr), L.ite(c, a.length, b.length), a.elem)
+    if isinstance(a, SMat) and isinstance(b, SMat):
+        return SMat(z3.If(c, a.arr, b.arr), L.ite(c, a.nrows, b.nrows), L.ite(c, a.ncols, b.ncols))
     if isinstance(a, ObjRef) and isinstance(b, ObjRef):
         if a.oid == b.oid:
             return a
@@ -329,6 +346,8 @@ class NS:
 def wrap(ex, st, v):
     if isinstance(v, SList):
         return SList(ex.named(v.arr), v.length, v.elem)
+    if isinstance(v, SMat):
+        return SMat(ex.named(v.arr), v.nrows, v.ncols)
     if isinstance(v, ObjRef):
         return ObjView(ex, st, v)
     if isinstance(v, NodeList):
@@ -782,6 +801,9 @@ class Exec:
             return self.new_object(st, ty[4:], pname)
         if ty == "matrix":
             return Matrix()
+        if ty == "mat2d":
+            return SMat(fresh(pname, z3.ArraySort(INT, z3.ArraySort(INT, REAL))), fresh(pname + ".rows", INT),
+                        fresh(pname + ".cols", INT))
         if ty == "fn":
             return FnVal()
         if ty == "none":
@@ -805,6 +827,12 @@ class Exec:
                 continue
             for name, term in fnh(self.ns(st), self.ns(self.old)):
                 self.oblige(st, "hint", anchor, name, term)
+        for (a, fna) in getattr(c, "assumes", []):
+            if a != anchor:
+                continue
+            for name, term in fna(self.ns(st), self.ns(self.old)):
+                st.assume(term)       # an instance of an ASSUMED external contract (listed in the trusted base)
+                self.notes.append("assumed at %s: %s" % (anchor, name))
         for (a, lname, binder) in c.lemmas:
             if a != anchor:
                 continue
@@ -817,6 +845,11 @@ class Exec:
             else:
                 concl = L.forall(lem.lo(**args), lem.hi(**args), lambda k: lem.concl(k=k, **args))
             st.assume(concl)
+        for (a, fnh) in getattr(c, "late_hints", []):
+            if a != anchor:
+                continue
+            for name, term in fnh(self.ns(st), self.ns(self.old)):
+                self.oblige(st, "hint", anchor, name, term)
         for (a, src) in c.ghost:
             if a != anchor:
                 continue
@@ -882,7 +915,8 @@ class Exec:
 
     def has_anchor(self, a):
         c = self.contract
-        return any(x[0] == a for x in c.lemmas) or any(x[0] == a for x in c.hints) or any(x[0] == a for x in c.ghost)
+        return any(x[0] == a for x in c.lemmas) or any(x[0] == a for x in c.hints) or any(x[0] == a for x in c.ghost) \
+            or any(x[0] == a for x in getattr(c, "assumes", [])) or any(x[0] == a for x in getattr(c, "late_hints", []))
 
     def stmt_Pass(self, st, stmt):
         return [(st, "next", None)]
@@ -930,7 +964,62 @@ class Exec:
         self.assign(st, stmt.target, val, stmt)
         return [(st, "next", None)]
 
+    def column_aug(self, st, stmt):
+        """M[:, j] op= rhs   (rhs a vector over the rows, or a scalar): elementwise on column j"""
+        t = stmt.target
+        M = self.eval(st, t.value)
+        j = self.eval(st, t.slice.elts[1])
+        rhs = self.eval(st, stmt.value)
+        if not isinstance(M, SMat) or not isinstance(stmt.op, ast.Div):
+            raise Unsupported("column update")
+        r = L.fresh_int("row")
+        if isinstance(rhs, SList):
+            self.oblige(st, "safe", "shape", "column-length", L.eq(rhs.length, M.nrows), stmt)
+            d = L.realval(rhs[r])
+            self.oblige(st, "safe", "div", "column-nonzero",
+                        L.forall(0, M.nrows, lambda k: L.ne(rhs[k], 0)), stmt)
+        else:
+            d = L.realval(rhs)
+            self.oblige(st, "safe", "div", "nonzero", d != 0, stmt)
+        new = fresh("col", M.arr.sort())
+        c = L.fresh_int("colidx")
+        st.assume(z3.ForAll([r, c], z3.Implies(z3.And(r >= 0, r < L.lift(M.nrows, INT)),
+                                               z3.Select(z3.Select(new, r), c) ==
+                                               z3.If(c == L.lift(j, INT), z3.Select(z3.Select(M.arr, r), c) / d,
+                                                     z3.Select(z3.Select(M.arr, r), c))),
+                            patterns=[z3.Select(z3.Select(new, r), c)]))
+        self.assign(st, t.value, SMat(new, M.nrows, M.ncols), stmt)
+        return [(st, "next", None)]
+
+    def vector_aug(self, st, stmt):
+        """v op= w  on whole 1-D arrays (elementwise, in place)"""
+        cur = self.eval(st, _as_load(stmt.target))
+        rhs = self.eval(st, stmt.value)
+        if not isinstance(stmt.op, ast.Div):
+            raise Unsupported("vector in-place operator")
+        r = L.fresh_int("el")
+        if isinstance(rhs, SList):
+            self.oblige(st, "safe", "shape", "same-length", L.eq(rhs.length, cur.length), stmt)
+            self.oblige(st, "safe", "div", "elements-nonzero", L.forall(0, cur.length, lambda k: L.ne(rhs[k], 0)), stmt)
+            d = L.realval(rhs[r])
+        else:
+            d = L.realval(rhs)
+            self.oblige(st, "safe", "div", "nonzero", d != 0, stmt)
+        new = fresh("vec", z3.ArraySort(INT, REAL))
+        st.assume(z3.ForAll([r], z3.Implies(z3.And(r >= 0, r < L.lift(cur.length, INT)),
+                                            z3.Select(new, r) == L.realval(cur[r]) / d),
+                            patterns=[z3.Select(new, r)]))
+        self.assign(st, stmt.target, SList(new, cur.length, "real"), stmt)
+        return [(st, "next", None)]
+
     def stmt_AugAssign(self, st, stmt):
+        if isinstance(stmt.target, ast.Subscript) and isinstance(stmt.target.slice, ast.Tuple) \
+                and len(stmt.target.slice.elts) == 2 and isinstance(stmt.target.slice.elts[0], ast.Slice):
+            return self.column_aug(st, stmt)
+        if isinstance(stmt.target, ast.Name) and isinstance(st.locals.get(stmt.target.id), SList) \
+                and st.locals[stmt.target.id].elem == "real" and not stmt.target.id.startswith("g_"):
+            rhs_is_vec = True
+            return self.vector_aug(st, stmt)
         cur = self.eval(st, stmt.target_load()) if hasattr(stmt, "target_load") else self.eval(st, _as_load(stmt.target))
         rhs = self.eval(st, stmt.value)
         val = self.binop(st, stmt.op, cur, rhs, stmt)
@@ -1207,6 +1296,8 @@ class Exec:
                 fields[f + ".len"] = self.havoc_value(f + ".len", fields[f + ".len"])
 
     def havoc_value(self, nm, cur):
+        if isinstance(cur, SMat):
+            return SMat(fresh(nm, cur.arr.sort()), cur.nrows, cur.ncols)
         if isinstance(cur, SList):
             return fresh_list(nm, cur.elem)
         if L.is_z3(cur):
@@ -1433,6 +1524,11 @@ class Exec:
                 new = SList(z3.Store(cur.arr, L.lift(idx, INT), L.lift(val, sort_of(cur.elem))), cur.length, cur.elem)
                 self.assign(st, tgt.value, new, stmt) if not isinstance(tgt.value, ast.Attribute) else \
                     self.store_list_field(st, tgt.value, new, stmt)
+                return
+            if isinstance(cur, SMat) and isinstance(val, SList):
+                self.oblige(st, "safe", "index", "row", L.conj(L.le(0, idx), L.lt(idx, cur.nrows)), tgt)
+                new = SMat(z3.Store(cur.arr, L.lift(idx, INT), val.arr), cur.nrows, cur.ncols)
+                self.assign(st, tgt.value, new, stmt)
                 return
             raise Unsupported("subscript store into %r" % (cur,))
         raise Unsupported("assignment target")
@@ -1680,6 +1776,9 @@ class Exec:
         if isinstance(base, SList):
             self.check_index(st, base, idx, e)
             return base[idx]
+        if isinstance(base, SMat):
+            self.oblige(st, "safe", "index", "row", L.conj(L.le(0, idx), L.lt(idx, base.nrows)), e)
+            return base[idx]
         if isinstance(base, NodeList):
             n = st.heap[base.oid]["nodes.len"]
             self.oblige(st, "safe", "index", "node", L.conj(L.le(0, idx), L.lt(idx, n)), e)
@@ -1826,6 +1925,30 @@ class Exec:
         return self.binop(st, e.op, a, b, e)
 
     def binop(self, st, op, a, b, node):
+        if isinstance(a, SList) or isinstance(b, SList):
+            # numpy elementwise arithmetic (scalar operands are broadcast): a fresh vector defined pointwise
+            ref = a if isinstance(a, SList) else b
+            if isinstance(a, SList) and isinstance(b, SList):
+                self.oblige(st, "safe", "shape", "same-length", L.eq(a.length, b.length), node)
+            r = L.fresh_int("el")
+            ea = a[r] if isinstance(a, SList) else a
+            eb = b[r] if isinstance(b, SList) else b
+            n0, p0 = len(self.obligations), len(st.pc)
+            ev = self.binop(st, op, ea, eb, node)
+            del self.obligations[n0:]
+            del st.pc[p0:]
+            if isinstance(op, ast.Div):
+                if isinstance(b, SList):
+                    self.oblige(st, "safe", "div", "elements-nonzero", L.forall(0, b.length, lambda k: L.ne(b[k], 0)), node)
+                else:
+                    self.oblige(st, "safe", "div", "nonzero", L.ne(b, 0), node)
+            is_real = L.is_z3(ev) and z3.is_real(ev) or isinstance(ev, float)
+            elem = "real" if is_real else "int"
+            new = fresh("vec", z3.ArraySort(INT, sort_of(elem)))
+            st.assume(z3.ForAll([r], z3.Implies(z3.And(r >= 0, r < L.lift(ref.length, INT)),
+                                                z3.Select(new, r) == L.lift(ev, sort_of(elem))),
+                                patterns=[z3.Select(new, r)]))
+            return SList(new, ref.length, elem)
         sym = L.is_z3(a) or L.is_z3(b)
         if isinstance(a, str) and isinstance(b, str) and isinstance(op, ast.Add):
             return a + b
@@ -1897,6 +2020,11 @@ class Exec:
                                            and self.aliases[nm][2] in self.repo.classes):
                 cls = nm if nm in self.repo.classes else self.aliases[nm][2]
                 return self.construct(st, cls, e)
+            qn = self.modname + "." + nm
+            if qn in REGISTRY or (self.qualname, qn) in CALL_OVERRIDES:
+                args = [self.eval(st, a) for a in e.args]
+                kwargs = {k.arg: self.eval(st, k.value) for k in e.keywords}
+                return self.contract_call(st, qn, None, args, kwargs, e)
             if nm in ("abs",):
                 v = self.eval(st, e.args[0])
                 return L.ite(L.ge(v, 0), v, -v)
@@ -2045,6 +2173,13 @@ class Exec:
             return L.ite(L.ge(v, 0), v, -v)
         if full == "numpy.exp" or full == "math.exp":
             return EXP(L.realval(args[0]))
+        if full in EXTERNALS:
+            kwargs = {k.arg: self.eval(st, k.value) for k in e.keywords}
+            return EXTERNALS[full](self, st, args, kwargs, e)
+        if full == "numpy.zeros" and isinstance(args[0], tuple) and len(args[0]) == 2:
+            r, c = args[0]
+            row0 = z3.K(INT, z3.RealVal(0))
+            return SMat(z3.K(INT, row0), r, c)
         if full == "numpy.zeros":
             n = args[0]
             dt = [k for k in e.keywords if k.arg == "dtype"]
@@ -2092,7 +2227,7 @@ class Exec:
         return out
 
     def contract_call(self, st, q, recv, args, kwargs, node, ctor=False):
-        c = REGISTRY[q]
+        c = CALL_OVERRIDES.get((self.qualname, q)) or REGISTRY[q]
         fn, _, _ = self.repo.function(q)
         allargs = ([recv] if recv is not None else []) + list(args)
         binding = self.bind_args(fn, allargs, kwargs)
